@@ -150,7 +150,7 @@ def o_init_group(ctx):
         ctx.claim('non-ionizable-never-reported', rep is False)
 
 
-SITES = {'pair_GLU_ARG_TYR': ['A:34', 'A:35', 'A:57', 'A:59'], 'pair_LYS_ASP': ['A:42', 'A:43', 'A:59', 'A:60'], 'pep8': ['A:25', 'A:29', 'A:30']}
+SITES = {'pair_CYS_CYS_bridge': ['E:41', 'E:42', 'E:57', 'E:58'], 'pair_GLU_ARG_TYR': ['A:34', 'A:35', 'A:57', 'A:59'], 'pair_LYS_ASP': ['A:42', 'A:43', 'A:59', 'A:60'], 'pep8': ['A:25', 'A:29', 'A:30']}
 
 
 def mk_pipeline(name, max_shift=2509):
@@ -174,11 +174,11 @@ def mk_pipeline(name, max_shift=2509):
         opt = M.run(M.text(name), args=['-i', ','.join(listed + bogus)], transform=tr)
         gb, go = M.groups(base), M.groups(opt)
         ctx.claim('same-groups-extracted', sorted(gb) == sorted(go))
-        want = {(('A', int(x.split(':')[1]))) for x in listed}
+        want = {((x.split(':')[0], int(x.split(':')[1]))) for x in listed}
         rep = M.reported(opt)
         for lab in M.reported(base):
             num = int(lab[3:7])
-            ctx.claim('reported-iff-listed', (rep.count(lab) == 1) == (('A', num) in want), detail='%r listed=%r reported=%r' % (lab, sorted(want), rep))
+            ctx.claim('reported-iff-listed', (rep.count(lab) == 1) == ((lab[8], num) in want), detail='%r listed=%r reported=%r' % (lab, sorted(want), rep))
         ctx.claim('nothing-else-reported', all(l in M.reported(base) for l in rep))
         for key in gb:
             for a, b in zip(gb[key], go.get(key, [])):
@@ -243,7 +243,7 @@ def obligations(tier):
                           bounds='group kind in {ASP, CYS, bridged CYS, backbone N, LYS}; symbolic chain / number in [-999,9999] / insertion code; '
                                  'list of 0, 1 or 3 symbolic triples; option absent or present',
                           claim_doc='titratable / reported afterwards <=> ionizable and the triple is listed', max_paths=100000, shards=4))
-    for name in (['pair_GLU_ARG_TYR'] if tier == 'quick' else ['pair_GLU_ARG_TYR', 'pair_LYS_ASP', 'pep8']):
+    for name in (['pair_GLU_ARG_TYR', 'pair_CYS_CYS_bridge'] if tier == 'quick' else ['pair_GLU_ARG_TYR', 'pair_CYS_CYS_bridge', 'pair_LYS_ASP', 'pep8']):
         obs.append(Obligation('O3-pipeline[%s]' % name, mk_pipeline(name, 300 if tier == 'quick' else 2509),
                               code=['propka/run.py:single (whole pipeline)', 'propka/conformation_container.py:ConformationContainer.init_group', 'propka/energy.py:radial_volume_desolvation',
                                     'propka/determinants.py:set_determinants', 'propka/output.py:get_summary_section'],
